@@ -110,7 +110,8 @@ func (p *Parser) parseOperator() error {
 	var op bytes.Buffer
 	for p.pos < len(p.data) {
 		c := p.data[p.pos]
-		if isLetter(c) || c == '\'' || c == '"' || c == '*' {
+		// operator names are letters, the quotes and '*'; d0 and d1 end in a digit
+		if isLetter(c) || c == '\'' || c == '"' || c == '*' || (op.Len() > 0 && c >= '0' && c <= '9') {
 			op.WriteByte(c)
 			p.pos++
 		} else {
@@ -194,7 +195,7 @@ func (p *Parser) parseOperand() (core.Object, error) {
 		// Check if it's actually an operator
 		// Peek ahead to see if followed by whitespace
 		end := p.pos
-		for end < len(p.data) && !isWhitespace(p.data[end]) {
+		for end < len(p.data) && !isWhitespace(p.data[end]) && !isDelimiter(p.data[end]) {
 			end++
 		}
 		token := string(p.data[p.pos:end])
@@ -381,6 +382,9 @@ func (p *Parser) parseHexString() (core.Object, error) {
 		if p.pos >= len(p.data) || p.data[p.pos] == '>' {
 			// Odd number of digits - assume trailing 0
 			result.WriteByte(hexValue(c) << 4)
+			if p.pos < len(p.data) {
+				p.pos++ // the closing '>' belongs to the string
+			}
 			break
 		}
 
@@ -390,6 +394,9 @@ func (p *Parser) parseHexString() (core.Object, error) {
 			p.skipWhitespace()
 			if p.pos >= len(p.data) || p.data[p.pos] == '>' {
 				result.WriteByte(hexValue(c) << 4)
+				if p.pos < len(p.data) {
+					p.pos++ // the closing '>' belongs to the string
+				}
 				break
 			}
 			c2 = p.data[p.pos]
